@@ -834,6 +834,15 @@ CHECKS['C18']['note'] = CHECKS['C18']['note'] + (
     ' Generator: equal-length axes with mixed per-axis shift tuples are enumerated in the factor (n-d) and FourierTransform '
     'streams; a list of expected strata (EXPECTED_BRANCHES) is enforced and an unhit one fails the run.')
 
+CHECKS['C03']['text'] = CHECKS['C03']['text'].replace('23 theorems.', '31 theorems.') + (
+    ' The in-place theorem for x != out (call_in_place_distinct, pso_in_place) assumes leaves that are only correct for distinct x '
+    'and out (contract AllOKg False); it holds because every expression class passes a FRESH temporary to its operand '
+    '(sensitivity: reusing_out_as_temporary_is_wrong; accum_leaf_ok / accum_leaf_not_alias_safe exhibit such a leaf); '
+    'call_out_of_place / call_in_place for alias-tolerant leaves (used by C10) follow from the general form.')
+CHECKS['C03']['note'] = CHECKS['C03']['note'] + (
+    ' A harness-defined non-alias-safe leaf (`accum`: writes out before it has read x) and 90 wrapper x leaf strata (15 wrapper '
+    'variants incl. cached temporaries x 6 leaves incl. Laplacian, PartialDerivative, Rosenbrock gradient) are part of every run.')
+
 NOT_YET = {}
 
 
